@@ -185,6 +185,11 @@ pub fn preused_decoder(
     // sometimes the previous life had the very same (k, r, size) - with the
     // other rate's layout where the API allows to hand working space over
     if rng.chance(1, 6) {
+        // the same payload in another shape (equal working-space size, other geometry)
+        if let Some(c) = gen::reshape(rng, rate, k, r, size) {
+            (k0, r0, size0) = c;
+        }
+    } else if rng.chance(1, 5) {
         (k0, r0, size0) = (k, r, size);
         if let Api::Rate(rk, eng) = api {
             let other = match rk {
@@ -222,6 +227,71 @@ pub fn preused_decoder(
     }
 }
 
+/// An encoder for (k, r, size) that has a past, like `preused_decoder`.
+pub fn preused_encoder(
+    rng: &mut Rng,
+    api: Api,
+    rate: RateKind,
+    k: usize,
+    r: usize,
+    size: usize,
+) -> Result<Box<dyn codec::DynEnc + Send>, reed_solomon_simd::Error> {
+    let class = *rng.pick(&[Class::Tiny, Class::Small, Class::Edge, Class::Medium]);
+    let (mut k0, mut r0) = gen::config(rng, class, rate);
+    let mut size0 = *rng.pick(&[2usize, 64, 66, 130]);
+    let mut api0 = api;
+    if rng.chance(1, 6) {
+        if let Some(c) = gen::reshape(rng, rate, k, r, size) {
+            (k0, r0, size0) = c;
+        }
+    } else if rng.chance(1, 5) {
+        (k0, r0, size0) = (k, r, size);
+        if let Api::Rate(rk, eng) = api {
+            let other = match rk {
+                RateKind::High => Some(RateKind::Low),
+                RateKind::Low => Some(RateKind::High),
+                RateKind::Default => None,
+            };
+            if let Some(o) = other {
+                if gen::rate_ok(o, k, r) {
+                    api0 = Api::Rate(o, eng);
+                }
+            }
+        }
+    }
+    let mut enc = codec::make_enc(api0, k0, r0, size0, None)?;
+    match rng.below(3) {
+        0 => {}
+        1 => {
+            // an abandoned round
+            for _ in 0..rng.below(k0.min(4) + 1) {
+                let junk = rng.bytes(size0);
+                enc.add(&junk)?;
+            }
+        }
+        _ => {
+            // a finished round (small configurations only)
+            if k0 <= 64 {
+                for _ in 0..k0 {
+                    let junk = rng.bytes(size0);
+                    enc.add(&junk)?;
+                }
+                enc.encode_touch()?;
+            }
+        }
+    }
+    match api {
+        Api::Rate(..) if api0 != api || rng.chance(1, 2) => {
+            let work = enc.into_work();
+            codec::make_enc(api, k, r, size, work)
+        }
+        _ => {
+            enc.reset(k, r, size)?;
+            Ok(enc)
+        }
+    }
+}
+
 fn one_case(rng: &mut Rng, class: Class, out: &mut CaseOut) {
     let mut rate = gen::rate(rng);
     let (mut k, mut r) = gen::config(rng, class, rate);
@@ -243,7 +313,20 @@ fn one_case(rng: &mut Rng, class: Class, out: &mut CaseOut) {
         enc_api.name()
     );
 
-    let recovery = match codec::encode_fresh(enc_api, k, r, size, &originals) {
+    // the encoder: fresh, or (a third of the cases) one with a past
+    let enc_preused = huge.is_none() && rng.chance(1, 3);
+    let encoded = if enc_preused {
+        preused_encoder(rng, enc_api, rate, k, r, size).and_then(|mut e| {
+            for o in &originals {
+                e.add(o)?;
+            }
+            e.encode_obs(&[]).map(|o| o.iter)
+        })
+    } else {
+        codec::encode_fresh(enc_api, k, r, size, &originals)
+    };
+    out.tag(if enc_preused { "encoder:pre-used" } else { "encoder:fresh" });
+    let recovery = match encoded {
         Ok(v) => v,
         Err(e) => {
             out.violate(
